@@ -29,7 +29,9 @@ Inductive sk :=
 | SStarted | SOutput | SEnded (r : N)
 | SProvider | SReqStarted | SHeaders | SFirstByte
 | SToolStarted | SToolStdout | SToolStderr | SToolEnded | SToolFailed
-| SCkCreated | SCkRewound | SCkFailed.
+| SCkCreated | SCkRewound | SCkFailed
+| SHttpErr (len sum : N)        (* provider_event whose error text is the quoted HTTP error: byte length, Adler-32 *)
+| SToolStdoutT (len sum : N).   (* tool_stdout whose chunk the model predicts (a cut read): byte length, Adler-32 *)
 
 (* continuity (thread) frame kinds; run = the run's session id, mid = message id *)
 Inductive ck :=
@@ -62,11 +64,66 @@ Definition capp (aok : ck -> bool) (k : ck) : list ev := if aok k then [EC k] el
 
 Definition repN {A} (x : A) (n : N) : list A := repeat x (N.to_nat n).
 
+(* ---------- texts: UTF-8 bytes, cuts, checksum ---------- *)
+(* a text is given by its shape: (code point, repeat count) segments *)
+Definition utf8_enc (cp : N) : list N :=
+  if cp <? 128 then [cp]
+  else if cp <? 2048 then [192 + cp / 64; 128 + cp mod 64]
+  else if cp <? 65536 then [224 + cp / 4096; 128 + (cp / 64) mod 64; 128 + cp mod 64]
+  else [240 + cp / 262144; 128 + (cp / 4096) mod 64; 128 + (cp / 64) mod 64; 128 + cp mod 64].
+
+Fixpoint rep_bytes (c : list N) (n : nat) : list N :=
+  match n with O => [] | S m => c ++ rep_bytes c m end.
+
+Definition seg_bytes (sg : list (N * N)) : list N :=
+  flat_map (fun p : N * N => rep_bytes (utf8_enc (fst p)) (N.to_nat (snd p))) sg.
+
+Definition is_cont (b : N) : bool := (128 <=? b) && (b <? 192).
+Definition char_len (b : N) : N := if b <? 192 then 1 else if b <? 224 then 2 else if b <? 240 then 3 else 4.
+
+(* THE cut: the longest prefix of whole characters that fits in n bytes - a total function of (n, bytes);
+   never an offset inside a character.  (At a lead byte the whole character is paid for; its continuation
+   bytes follow for free.) *)
+Fixpoint cut_floor (n : N) (l : list N) : list N :=
+  match l with
+  | [] => []
+  | b :: r =>
+      if is_cont b then b :: cut_floor n r
+      else let w := char_len b in if w <=? n then b :: cut_floor (n - w) r else []
+  end.
+
+(* rip-tools builtins `read` (read.rs:79-86 + truncate_utf8, mod.rs:200-206): the byte vector is truncated to
+   max_bytes first, so truncate_utf8 sees len <= max and decodes LOSSILY: the whole characters, then one
+   U+FFFD when the cut fell inside a character *)
+Definition read_cut (max : N) (l : list N) : list N :=
+  let f := cut_floor max l in
+  if nlen f <? N.min max (nlen l) then f ++ [239; 191; 189] else f.
+
+(* Adler-32 *)
+Definition adler (l : list N) : N :=
+  let st := fold_left (fun (st : N * N) (b : N) => let x := (fst st + b) mod 65521 in (x, (snd st + x) mod 65521)) l (1, 0) in
+  snd st * 65536 + fst st.
+
+(* session.rs stream_openresponses_request, `!status.is_success()`:
+     format!("provider http error: {status}: {body}")  with body = response.text() verbatim (no cap today);
+   Gen/RunLifecycleGen.v re-reads both from the source on every run *)
+Definition HTTP_ERR_PREFIX : list N :=
+  [112; 114; 111; 118; 105; 100; 101; 114; 32; 104; 116; 116; 112; 32; 101; 114; 114; 111; 114; 58; 32].
+Definition HTTP_ERR_CAP : option N := None.
+
+Definition http_cut (cap : option N) (l : list N) : list N :=
+  match cap with None => l | Some n => cut_floor n l end.
+
+(* status = the bytes of `{status}` (code and canonical reason), body = shape of the response body *)
+Definition http_err_text (status : list N) (body : list (N * N)) : list N :=
+  HTTP_ERR_PREFIX ++ status ++ [58; 32] ++ http_cut HTTP_ERR_CAP (seg_bytes body).
+
 (* ---------- tools (ToolRunner::run) ---------- *)
 Inductive tool_res :=
 | TUnknown                   (* registry miss: ToolFailed "unknown tool" *)
 | TTimeout                   (* tokio timeout: ToolFailed "timeout" *)
-| TDone (nout nerr : N).     (* handler returned (any exit code, incl. invalid args = 2): stdout*, stderr*, ToolEnded *)
+| TDone (nout nerr : N)      (* handler returned (any exit code, incl. invalid args = 2): stdout*, stderr*, ToolEnded *)
+| TReadCut (file : list (N * N)) (max : N).   (* `read` of a one-line file with max_bytes: one chunk, the cut text *)
 
 Record tool_out := {
   t_auto : N;                (* auto checkpoint before ToolStarted: 0 none, 1 created, 2 failed *)
@@ -80,6 +137,8 @@ Definition tool_kinds (t : tool_out) : list sk :=
   match t_res t with
   | TUnknown | TTimeout => [SToolFailed]
   | TDone o e => repN SToolStdout o ++ repN SToolStderr e ++ [SToolEnded]
+  | TReadCut file max =>
+      let txt := read_cut max (seg_bytes file) in [SToolStdoutT (nlen txt) (adler txt); SToolEnded]
   end.
 
 (* one function call drained from the collector *)
@@ -114,7 +173,8 @@ Fixpoint run_calls (sid : N) (link : option N) (aok : ck -> bool) (calls : list 
 Inductive req_out :=
 | RInvalid                       (* payload.errors() non-empty: 1 provider frame, Err "invalid_request" *)
 | RSendErr                       (* request.send() failed: started, provider frame *)
-| RHttpErr                       (* non-2xx: started, headers, provider frame *)
+| RHttpErr (status : list N) (body : list (N * N))
+                                 (* non-2xx: started, headers, provider frame quoting status and body *)
 | REmpty                         (* body ended before the first byte *)
 | RFirstErr                      (* first chunk is a transport error *)
 | RMidErr (pf : list bool)       (* frames of the events decoded so far, then a transport error *)
@@ -129,7 +189,10 @@ Definition stream_kinds (r : req_out) : list sk * option N :=
   match r with
   | RInvalid => ([SProvider], Some R_INVALID_REQUEST)
   | RSendErr => ([SReqStarted; SProvider], Some R_PROVIDER_ERROR)
-  | RHttpErr | REmpty | RFirstErr => ([SReqStarted; SHeaders; SProvider], Some R_PROVIDER_ERROR)
+  | RHttpErr st body =>
+      let txt := http_err_text st body in
+      ([SReqStarted; SHeaders; SHttpErr (nlen txt) (adler txt)], Some R_PROVIDER_ERROR)
+  | REmpty | RFirstErr => ([SReqStarted; SHeaders; SProvider], Some R_PROVIDER_ERROR)
   | RMidErr pf => ([SReqStarted; SHeaders; SFirstByte] ++ prov_kinds pf ++ [SProvider], Some R_PROVIDER_ERROR)
   | ROk pf _ _ => ([SReqStarted; SHeaders; SFirstByte] ++ prov_kinds pf, None)
   end.
@@ -145,7 +208,7 @@ Fixpoint agent_loop (sid : N) (link : option N) (aok : ck -> bool) (stateless : 
   else
     match reqs with
     | [] =>
-        let ks := fst (stream_kinds RHttpErr) in
+        let ks := fst (stream_kinds (RHttpErr [] [])) in
         (frames_at sid seq ks, seq + nlen ks, R_PROVIDER_ERROR, prev)
     | r :: rest =>
         let ks := fst (stream_kinds r) in
@@ -362,6 +425,7 @@ Definition sk_code (k : sk) : list N :=
   | SProvider => [4] | SReqStarted => [5] | SHeaders => [6] | SFirstByte => [7]
   | SToolStarted => [8] | SToolStdout => [9] | SToolStderr => [10] | SToolEnded => [11] | SToolFailed => [12]
   | SCkCreated => [13] | SCkRewound => [14] | SCkFailed => [15]
+  | SHttpErr n a => [16; n; a] | SToolStdoutT n a => [17; n; a]
   end.
 
 Definition ck_code (k : ck) : list N :=
